@@ -313,6 +313,54 @@ func (p *proj) shape(a *dg.Attr) string {
 	return "SOther"
 }
 
+// creds lists the credential attributes MethodExpr.Validate finds in a payload
+// (hasTag: the attributes of the object, through the user type and its bases).
+func (p *proj) creds(a *dg.Attr) string {
+	var fs []*dg.Field
+	var collect func(name string, seen map[string]bool)
+	collect = func(name string, seen map[string]bool) {
+		if seen[name] {
+			return
+		}
+		seen[name] = true
+		if ut := p.ut(name); ut != nil && ut.Base.Kind == "object" {
+			fs = append(fs, ut.Base.Attrs...)
+			if ut.Extend != "" {
+				collect(ut.Extend, seen)
+			}
+		}
+	}
+	if a != nil {
+		switch a.T.Kind {
+		case "object":
+			fs = a.T.Attrs
+		case "user":
+			collect(a.T.Ref, map[string]bool{})
+		}
+	}
+	var cs []string
+	for _, f := range fs {
+		if f.A.Sec == nil {
+			continue
+		}
+		switch f.A.Sec.Fn {
+		case "Username":
+			cs = append(cs, "CUser")
+		case "Password":
+			cs = append(cs, "CPass")
+		case "APIKey":
+			cs = append(cs, fmt.Sprintf("CKey %d", p.intern(f.A.Sec.Scheme)))
+		case "Token":
+			cs = append(cs, "CToken")
+		case "AccessToken":
+			cs = append(cs, "CAccess")
+		}
+	}
+	return "[" + strings.Join(cs, ";") + "]"
+}
+
+var skindOf = map[string]string{"basic": "SBasic", "apikey": "SAPIKey", "jwt": "SJWT", "oauth2": "SOAuth2"}
+
 func (p *proj) views(vs []dg.View) string {
 	ss := make([]string, len(vs))
 	for i, v := range vs {
@@ -457,14 +505,14 @@ func (p *proj) coqDesign() (term string, roots []int) {
 			if m.HTTP != nil {
 				h = "(Some " + p.http(s, m.HTTP) + ")"
 			}
-			ms = append(ms, fmt.Sprintf("mkM %s %s %s %s %s", p.shape(m.Payload), p.result(m), p.errdefs(m.Errors), p.reqs(m.Security, m.NoSecurity), h))
+			ms = append(ms, fmt.Sprintf("mkM %s %s %s %s %s %s", p.shape(m.Payload), p.creds(m.Payload), p.result(m), p.errdefs(m.Errors), p.reqs(m.Security, m.NoSecurity), h))
 		}
 		svcs = append(svcs, fmt.Sprintf("mkS %s %s %s [%s]", p.errdefs(s.Errors), p.reqs(s.Security, false), p.eresponses(s.HTTPErrs), strings.Join(ms, ";")))
 	}
 	p.resolveUsers()
 	var schemes, rts []string
 	for _, sc := range d.Schemes {
-		schemes = append(schemes, fmt.Sprintf("mkSc %d %s", p.intern(sc.Name), p.names1(sc.Scopes)))
+		schemes = append(schemes, fmt.Sprintf("mkSc %d %s %s", p.intern(sc.Name), skindOf[sc.Kind], p.names1(sc.Scopes)))
 	}
 	for _, ut := range d.Types {
 		if ut.Result {
@@ -506,9 +554,21 @@ var errPats = []errPat{
 	{regexp.MustCompile(`does not define view "([^"]+)"`), "EView"},
 	{regexp.MustCompile(`unknown attribute "([^"]+)"`), "EViewAttr"},
 	{regexp.MustCompile(`required field "([^"]+)" does not exist in type`), "ERequired"},
+	{regexp.MustCompile(`does not define a (username) attribute`), "ENoUsername"},
+	{regexp.MustCompile(`does not define a (password) attribute`), "ENoPassword"},
+	{regexp.MustCompile(`does not define an (API key) attribute`), "ENoAPIKey"},
+	{regexp.MustCompile(`does not define a (JWT) attribute`), "ENoToken"},
+	{regexp.MustCompile(`does not define a (OAuth2 access token) attribute`), "ENoAccessToken"},
+	{regexp.MustCompile(`defines a (username) attribute, but no`), "EStrayUsername"},
+	{regexp.MustCompile(`defines a (password) attribute, but no`), "EStrayPassword"},
+	{regexp.MustCompile(`defines an (API key) attribute, but no`), "EStrayAPIKey"},
+	{regexp.MustCompile(`defines a (JWT token) attribute, but no`), "EStrayToken"},
+	{regexp.MustCompile(`defines a (OAuth2 access token) attribute, but no`), "EStrayAccessToken"},
 }
 
-var nameless = map[string]bool{"ENoPayload": true, "ERespNoResult": true}
+var nameless = map[string]bool{"ENoPayload": true, "ERespNoResult": true,
+	"ENoUsername": true, "ENoPassword": true, "ENoAPIKey": true, "ENoToken": true, "ENoAccessToken": true,
+	"EStrayUsername": true, "EStrayPassword": true, "EStrayAPIKey": true, "EStrayToken": true, "EStrayAccessToken": true}
 
 // parseErrors maps the messages goa reported onto constructors of Model.err
 // ("EHeader zzz"); messages of kinds the model does not cover are dropped.
